@@ -170,7 +170,9 @@ def structure_stream(run, drv):
         ops.append(("unsqueeze", du, lambda t, du=du: t.unsqueeze(du), sx("c16.unsqueeze", N.to_sx(spec), du), lambda du=du, a=a: np.expand_dims(a, du)))
         ops.append(("maybe_to_stack", None, None, sx("c16.tostack", N.to_sx(spec)), lambda a=a: a))
         name, arg, f, req, want_fn = run.rng.choice(ops)
-        case = {"op": name, "arg": arg, "spec": str(spec)}
+        # the holder may realise an op by other means than the entry's own method (e.g. indexing): half of the time the entry is asked
+        entry_level = name != "maybe_to_stack" and run.rng.random() < 0.5
+        case = {"op": name + ("(entry)" if entry_level else ""), "arg": arg, "spec": str(spec)}
         try:
             with time_limit(10):
                 if name == "maybe_to_stack":
@@ -178,11 +180,11 @@ def structure_stream(run, drv):
                     impl = ["ok", N.read(res)]
                     tl = N.tolist_ids(res)
                 elif name == "unbind":
-                    res = [t.get("a") for t in f(td)]
+                    res = list(f(td.get("a"))) if entry_level else [t.get("a") for t in f(td)]
                     impl = ["ok", [N.read(x) for x in res]]
                     tl = [N.tolist_ids(x) for x in res]
                 else:
-                    res = f(td).get("a")
+                    res = f(td.get("a")) if entry_level else f(td).get("a")
                     impl = ["ok", N.read(res)]
                     tl = N.tolist_ids(res)
         except TimeoutError:
@@ -386,14 +388,23 @@ def reshape_stream(run, drv):
             d = run.rng.randrange(rank)
             size = run.rng.randint(1, shape[d] + 1)
             name, arg = "split", (size, d)
-            f = lambda t, size=size, d=d: [x.get("a") for x in t.split(size, d)]   # noqa: E731
+            # (the holder slices its entries by indexing; the entry's own `split` — `_lazy.py:split` for a stack — is asked directly half of the time)
+            if run.rng.random() < 0.5:
+                name = "split(entry)"
+                f = lambda t, size=size, d=d: list(t.get("a").split(size, d))       # noqa: E731
+            else:
+                f = lambda t, size=size, d=d: [x.get("a") for x in t.split(size, d)]   # noqa: E731
             req = sx("c16.split", N.to_sx(spec), size, d)
             want_fn = lambda a=a, size=size, d=d: [nested(x) for x in np.split(a, list(range(size, a.shape[d], size)), axis=d)]  # noqa: E731
         else:
             d = run.rng.randrange(rank)
             k = run.rng.randint(1, shape[d] + 1)
             name, arg = "chunk", (k, d)
-            f = lambda t, k=k, d=d: [x.get("a") for x in t.chunk(k, d)]          # noqa: E731
+            if run.rng.random() < 0.5:
+                name = "chunk(entry)"
+                f = lambda t, k=k, d=d: list(t.get("a").chunk(k, d))                # noqa: E731
+            else:
+                f = lambda t, k=k, d=d: [x.get("a") for x in t.chunk(k, d)]          # noqa: E731
             req = sx("c16.chunk", N.to_sx(spec), k, d)
 
             def want_fn(a=a, k=k, d=d):
@@ -420,7 +431,7 @@ def reshape_stream(run, drv):
         pend.append((case, name, impl, tl, want_fn))
     for (case, name, impl, tl, want_fn), ans in zip(pend, ask(drv, reqs)):
         m = parse_sx(ans)
-        if name in ("split", "chunk"):
+        if name.startswith(("split", "chunk")):
             model = ["ok", [N.from_parsed(x) for x in m]]
         elif m[0] == "ok":
             model = ["ok", N.from_parsed(m[1])]
